@@ -50,7 +50,7 @@ theorem sizeAlt_cons_cons (cfg : Cfg) (c d : GoNode) (ds : List GoNode) :
   simp
 
 /-- the highest tier the simulation lemma covers so far -/
-def maxTier : Nat := 6
+def maxTier : Nat := 7
 
 section main
 variable (W : World)
@@ -102,17 +102,17 @@ include hWk
 mutual
 /-- **the simulation lemma**: the code of a node of the fragment delivers the specification's successes of its
     pattern -/
-theorem node_delivers : ∀ (n : GoNode) (a : Nat) (tb : Tables) (pat : Pat),
-    tier n ≤ W.k → toPat W.TPx false n = some pat → n.ok = true → capsOk W.cfg W.X.p.capsize n = true →
+theorem node_delivers : ∀ (n : GoNode) (d : Bool) (a : Nat) (tb : Tables) (pat : Pat),
+    tier n ≤ W.k → toPat W.TPx d n = some pat → n.ok = true → capsOk W.cfg W.X.p.capsize n = true →
     boundsOk n = true → CodeAt W.X.p a (emitNode W.cfg a tb n).1 → TabExt (emitNode W.cfg a tb n).2 W.fin →
     ∀ (i : Nat) (T S : List Int) (v : Int) (C : List (Nat × Nat × Nat)) (s : VMState), St.wf W.X.se.n ⟨i, C⟩ →
-      Entry W.X a i (T ++ [v]) S C s → Delivers W.X (a + size W.cfg n) T S S C (m W.X.se pat false ⟨i, C⟩) s
-  | .empty, a, tb, pat, _, hp, _, _, _, _, _, i, T, S, v, C, s, _, he => by
+      Entry W.X a i (T ++ [v]) S C s → Delivers W.X (a + size W.cfg n) T S S C (m W.X.se pat d ⟨i, C⟩) s
+  | .empty, d, a, tb, pat, _, hp, _, _, _, _, _, i, T, S, v, C, s, _, he => by
     simp only [toPat, Option.some.injEq] at hp
     subst hp
     simp only [size, Nat.add_zero, m]
     exact Delivers.single (v := v) (Leads.here he) rfl
-  | .bare t, a, tb, pat, ht, hp, _, _, _, hcode, _, i, T, S, v, C, s, hwf, he => by
+  | .bare t, d, a, tb, pat, ht, hp, _, _, _, hcode, _, i, T, S, v, C, s, hwf, he => by
     simp only [toPat] at hp
     simp only [emitNode] at hcode
     by_cases hne : t = opUpdateBumpalong
@@ -123,9 +123,9 @@ theorem node_delivers : ∀ (n : GoNode) (a : Nat) (tb : Tables) (pat : Pat),
       subst hpe
       have := updatebumpalong_delivers he hcode.instr (by simpa using hcode.fetch_end)
       simpa [size, m] using this
-    · have := bare_delivers W.hrel hwf.1 hp hne he hcode.instr (by simpa using hcode.fetch_end)
+    · have := bare_delivers (d := d) W.hrel hwf.1 hp hne he hcode.instr (by simpa using hcode.fetch_end)
       simpa [size] using this
-  | .char t rtl ci ch, a, tb, pat, _, hp, hok, _, _, hcode, _, i, T, S, v, C, s, hwf, he => by
+  | .char t rtl ci ch, d, a, tb, pat, _, hp, hok, _, _, hcode, _, i, T, S, v, C, s, hwf, he => by
     simp only [toPat] at hp
     simp only [emitNode] at hcode
     split at hp
@@ -136,11 +136,11 @@ theorem node_delivers : ∀ (n : GoNode) (a : Nat) (tb : Tables) (pat : Pat),
       have hia := hcode.instr
       have hf : ∃ w, VM.fetch W.X.p (a + 2) = .ok w := by simpa using hcode.fetch_end
       have ht64 : t < 64 := charTypes_lt t (by simpa [GoNode.ok] using hok)
-      have hoper : s.oper = ⟨t, false, false, false, ci⟩ := by
-        rw [he.oper hia]; exact (decode_bits t ht64 false ci).2
+      have hoper : s.oper = ⟨t, rtl, false, false, ci⟩ := by
+        rw [he.oper hia]; exact (decode_bits t ht64 rtl ci).2
       have hb : s.oper.back = false := by rw [hoper]
       have hb2 : s.oper.back2 = false := by rw [hoper]
-      have hrtl : s.oper.rtl = false := by rw [hoper]
+      have hrtl : s.oper.rtl = rtl := by rw [hoper]
       simp only [size]
       split at hp
       · next h1 =>
@@ -158,7 +158,7 @@ theorem node_delivers : ∀ (n : GoNode) (a : Nat) (tb : Tables) (pat : Pat),
             (predOk_notone W.X ch hch) hf
         · cases hp
     · cases hp
-  | .set rtl ci pl, a, tb, pat, _, hp, _, _, _, hcode, hext, i, T, S, v, C, s, hwf, he => by
+  | .set rtl ci pl, d, a, tb, pat, _, hp, _, _, _, hcode, hext, i, T, S, v, C, s, hwf, he => by
     simp only [toPat] at hp
     simp only [emitNode, setKey_eq] at hcode hext
     split at hp
@@ -174,12 +174,12 @@ theorem node_delivers : ∀ (n : GoNode) (a : Nat) (tb : Tables) (pat : Pat),
         subst hp
         have hia := hcode.instr
         have hf : ∃ w, VM.fetch W.X.p (a + 2) = .ok w := by simpa using hcode.fetch_end
-        have hoper : s.oper = ⟨opSet, false, false, false, false⟩ := by
-          rw [he.oper hia]; exact (decode_bits opSet (by decide) false false).2
+        have hoper : s.oper = ⟨opSet, rtl, false, false, false⟩ := by
+          rw [he.oper hia]; exact (decode_bits opSet (by decide) rtl false).2
         have hop : Op.ofNat? s.oper.op = some .set := by rw [hoper]; rfl
         have hb : s.oper.back = false := by rw [hoper]
         have hb2 : s.oper.back2 = false := by rw [hoper]
-        have hrtl : s.oper.rtl = false := by rw [hoper]
+        have hrtl : s.oper.rtl = rtl := by rw [hoper]
         have hget : W.fin.sets[(internKey id tb.sets pl).1]? = some pl := by
           obtain ⟨e, he'⟩ := hext.2
           rw [he']
@@ -188,7 +188,7 @@ theorem node_delivers : ∀ (n : GoNode) (a : Nat) (tb : Tables) (pat : Pat),
         exact caseChar_delivers W.hrel hwf.1 he hia rfl (by simp only [body, hop, modeOf, hb, hb2]) hrtl
           (predOk_set W.hrel W.hnsets hget hrd) hf
     · cases hp
-  | .multi rtl ci str, a, tb, pat, _, hp, _, _, _, hcode, hext, i, T, S, v, C, s, hwf, he => by
+  | .multi rtl ci str, d, a, tb, pat, _, hp, _, _, _, hcode, hext, i, T, S, v, C, s, hwf, he => by
     simp only [toPat] at hp
     simp only [emitNode, strKey_eq] at hcode hext
     split at hp
@@ -206,7 +206,7 @@ theorem node_delivers : ∀ (n : GoNode) (a : Nat) (tb : Tables) (pat : Pat),
       simp only [size]
       exact multi_delivers W.hrel hwf.1 he hia hget hf
     · cases hp
-  | .ref rtl ci g, a, tb, pat, ht, hp, hok, hcaps, hbd, hcode, hext, i, T, S, v, C, s, hwf, he => by
+  | .ref rtl ci g, d, a, tb, pat, ht, hp, hok, hcaps, hbd, hcode, hext, i, T, S, v, C, s, hwf, he => by
     simp only [toPat] at hp
     simp only [emitNode] at hcode
     simp only [tier] at ht
@@ -235,9 +235,14 @@ theorem node_delivers : ∀ (n : GoNode) (a : Nat) (tb : Tables) (pat : Pat),
         (by simpa using hcode.fetch_end)
       simpa [size] using this
     · cases hp
-  | .charloop t rtl ci ch lo hi, a, tb, pat, _, hp, hok, _, hbd, hcode, _, i, T, S, v, C, s, hwf, he => by
+  | .charloop t rtl ci ch lo hi, d, a, tb, pat, ht, hp, hok, _, hbd, hcode, _, i, T, S, v, C, s, hwf, he => by
     simp only [toPat] at hp
     simp only [emitNode] at hcode
+    have hrf : rtl = false := by
+      cases rtl with
+      | false => rfl
+      | true => have := Nat.le_trans ht hWk; simp [tier, maxTier] at this
+    subst hrf
     split at hp
     · next hc =>
       simp only [Bool.and_eq_true, beq_iff_eq, decide_eq_true_eq, List.contains_iff_mem] at hc
@@ -257,9 +262,14 @@ theorem node_delivers : ∀ (n : GoNode) (a : Nat) (tb : Tables) (pat : Pat),
         exact loopnode_delivers W.hrel W.hlen hwf.1 he (List.mem_append_left _ hty) h2.symm (Or.inr (Or.inl ⟨rfl, rfl⟩)) h0 hmn
           hn hcode (fun _ => predOk_notone W.X ch hch)
     · cases hp
-  | .setloop t rtl ci pl lo hi, a, tb, pat, _, hp, hok, _, hbd, hcode, hext, i, T, S, v, C, s, hwf, he => by
+  | .setloop t rtl ci pl lo hi, d, a, tb, pat, ht, hp, hok, _, hbd, hcode, hext, i, T, S, v, C, s, hwf, he => by
     simp only [toPat] at hp
     simp only [emitNode, setKey_eq] at hcode hext
+    have hrf : rtl = false := by
+      cases rtl with
+      | false => rfl
+      | true => have := Nat.le_trans ht hWk; simp [tier, maxTier] at this
+    subst hrf
     split at hp
     · next hc =>
       simp only [Bool.and_eq_true, beq_iff_eq, Bool.not_eq_true', List.contains_iff_mem] at hc
@@ -285,21 +295,22 @@ theorem node_delivers : ∀ (n : GoNode) (a : Nat) (tb : Tables) (pat : Pat),
           exact get_of_ext (internKey_get tb.sets pl)
         exact predOk_set W.hrel W.hnsets hget hrd
     · cases hp
-  | .concat cs, a, tb, pat, ht, hp, hok, hcaps, hbd, hcode, hext, i, T, S, v, C, s, hwf, he => by
+  | .concat cs, d, a, tb, pat, ht, hp, hok, hcaps, hbd, hcode, hext, i, T, S, v, C, s, hwf, he => by
     simp only [toPat] at hp
-    cases hps : toPatList W.TPx false cs with
+    cases hps : toPatList W.TPx d cs with
     | none => rw [hps] at hp; cases hp
     | some ps =>
       rw [hps] at hp
-      simp only [Option.map_some, Bool.false_eq_true, if_false, Option.some.injEq] at hp
+      simp only [Option.map_some, Option.some.injEq] at hp
       subst hp
       simp only [GoNode.ok, Bool.and_eq_true] at hok
-      exact list_delivers cs a tb ps (by simpa [tier] using ht) hps hok.2 (by simpa [capsOk] using hcaps)
+      rw [m_nestSeq_dir]
+      exact list_delivers cs d a tb ps (by simpa [tier] using ht) hps hok.2 (by simpa [capsOk] using hcaps)
         (by simpa [boundsOk] using hbd) (by simpa [emitNode] using hcode) (by simpa [emitNode] using hext)
         i T S v C s hwf he
-  | .alt cs, a, tb, pat, ht, hp, hok, hcaps, hbd, hcode, hext, i, T, S, v, C, s, hwf, he => by
+  | .alt cs, d, a, tb, pat, ht, hp, hok, hcaps, hbd, hcode, hext, i, T, S, v, C, s, hwf, he => by
     simp only [toPat] at hp
-    cases hps : toPatList W.TPx false cs with
+    cases hps : toPatList W.TPx d cs with
     | none => rw [hps] at hp; cases hp
     | some ps =>
       rw [hps] at hp
@@ -307,12 +318,12 @@ theorem node_delivers : ∀ (n : GoNode) (a : Nat) (tb : Tables) (pat : Pat),
       subst hp
       simp only [GoNode.ok, Bool.and_eq_true, Bool.not_eq_true'] at hok
       have hne : cs ≠ [] := by intro h; subst h; simp at hok
-      exact alt_delivers cs a (a + sizeAlt W.cfg cs) tb ps hne rfl (by simpa [tier] using ht) hps hok.2
+      exact alt_delivers cs d a (a + sizeAlt W.cfg cs) tb ps hne rfl (by simpa [tier] using ht) hps hok.2
         (by simpa [capsOk] using hcaps) (by simpa [boundsOk] using hbd) (by simpa [emitNode] using hcode)
         (by simpa [emitNode] using hext) i T S v C s hwf he
-  | .loop lzy lo hi c, a, tb, pat, ht, hp, hok, hcaps, hbd, hcode, hext, i, T, S, v, C, s, hwf, he => by
+  | .loop lzy lo hi c, d, a, tb, pat, ht, hp, hok, hcaps, hbd, hcode, hext, i, T, S, v, C, s, hwf, he => by
     simp only [toPat] at hp
-    cases hpc : toPat W.TPx false c with
+    cases hpc : toPat W.TPx d c with
     | none => rw [hpc] at hp; cases hp
     | some pc =>
       rw [hpc] at hp
@@ -323,22 +334,22 @@ theorem node_delivers : ∀ (n : GoNode) (a : Nat) (tb : Tables) (pat : Pat),
       obtain ⟨⟨⟨h0, hmn⟩, hnm⟩, hbc⟩ := hbd
       simp only [tier, Nat.max_le] at ht
       have hn : W.X.se.n < 2147483647 := W.hlenS ht.1
-      have := gloopnode_delivers W.hrel hn (sz := size W.cfg c) (f := m W.X.se pc false) (d := false) h0 hmn hnm hcode
-        (emitNode_size _ _ _ _) (fun st st' h => m_dir _ pc false st st' h)
-        (fun st hst st' h => m_wf _ pc false st hst st' h)
-        (fun p C' T' S' v' s' hwf' he' => node_delivers c (a + loopHeadLen lo hi) tb pc ht.2 hpc
+      have := gloopnode_delivers W.hrel hn (sz := size W.cfg c) (f := m W.X.se pc d) (d := d) h0 hmn hnm hcode
+        (emitNode_size _ _ _ _) (fun st st' h => m_dir _ pc d st st' h)
+        (fun st hst st' h => m_wf _ pc d st hst st' h)
+        (fun p C' T' S' v' s' hwf' he' => node_delivers c d (a + loopHeadLen lo hi) tb pc ht.2 hpc
           (by simpa [GoNode.ok] using hok) (by simpa [capsOk] using hcaps) hbc (loop_body_codeAt hcode) hext p T' S' v' C' s'
           hwf' he') hwf he
       refine this.cast (by simp only [size]; omega) ?_
       simp only [m]
-  | .capture g n c, a, tb, pat, ht, hp, hok, hcaps, hbd, hcode, hext, i, T, S, v, C, s, hwf, he => by
+  | .capture g n c, d, a, tb, pat, ht, hp, hok, hcaps, hbd, hcode, hext, i, T, S, v, C, s, hwf, he => by
     simp only [toPat] at hp
     split at hp
     · next hc =>
       simp only [Bool.and_eq_true, beq_iff_eq, decide_eq_true_eq] at hc
       obtain ⟨hn, hg0⟩ := hc
       subst hn
-      cases hpc : toPat W.TPx false c with
+      cases hpc : toPat W.TPx d c with
       | none => rw [hpc] at hp; cases hp
       | some pc =>
         rw [hpc] at hp
@@ -357,66 +368,72 @@ theorem node_delivers : ∀ (n : GoNode) (a : Nat) (tb : Tables) (pat : Pat),
         have hslt : W.X.sl g.toNat < W.X.p.capsize := by omega
         rw [← hsl] at hcode
         have := capture_delivers W (g := g.toNat) (sz := size W.cfg c) hcode (emitNode_size _ _ _ _) hslt he
-          (rs := m W.X.se pc false ⟨i, C⟩) (fun s1 he1 =>
-            node_delivers c (a + 1) tb pc (by simpa [tier] using ht) hpc (by simpa [GoNode.ok] using hok) hcaps.2
+          (rs := m W.X.se pc d ⟨i, C⟩) (fun s1 he1 =>
+            node_delivers c d (a + 1) tb pc (by simpa [tier] using ht) hpc (by simpa [GoNode.ok] using hok) hcaps.2
               (by simpa [boundsOk] using hbd) ((hcode.left').right.cast (by simp) rfl) hext i ((a : Int) :: T) _ v C s1 hwf
               he1)
         refine this.cast (by simp only [size, hec, if_true]; omega) ?_
         simp only [m]
     · cases hp
-  | .group c, a, tb, pat, ht, hp, hok, hcaps, hbd, hcode, hext, i, T, S, v, C, s, hwf, he => by
+  | .group c, d, a, tb, pat, ht, hp, hok, hcaps, hbd, hcode, hext, i, T, S, v, C, s, hwf, he => by
     simp only [toPat] at hp
     simp only [emitNode] at hcode hext
     simp only [size]
-    exact node_delivers c a tb pat (by simpa [tier] using ht) hp (by simpa [GoNode.ok] using hok)
+    exact node_delivers c d a tb pat (by simpa [tier] using ht) hp (by simpa [GoNode.ok] using hok)
       (by simpa [capsOk] using hcaps) (by simpa [boundsOk] using hbd) hcode hext i T S v C s hwf he
-  | .poslook c, a, tb, pat, ht, hp, hok, hcaps, hbd, hcode, hext, i, T, S, v, C, s, hwf, he => by
-    simp only [tier] at ht
-    split at ht
-    · next hdir =>
-      have hdir' : lookDir c = some false := by simpa using hdir
-      simp only [toPat, hdir'] at hp
-      cases hpc : toPat W.TPx false c with
+  | .poslook c, d, a, tb, pat, ht, hp, hok, hcaps, hbd, hcode, hext, i, T, S, v, C, s, hwf, he => by
+    have htc : tier c ≤ W.k := by
+      simp only [tier] at ht
+      split at ht <;> (simp only [Nat.max_le] at ht; exact ht.2)
+    simp only [toPat] at hp
+    cases hdir : lookDir c with
+    | none => rw [hdir] at hp; cases hp
+    | some b =>
+      rw [hdir] at hp
+      simp only at hp
+      cases hpc : toPat W.TPx b c with
       | none => rw [hpc] at hp; cases hp
       | some pc =>
         rw [hpc] at hp
         simp only [Option.map_some, Option.some.injEq] at hp
         subst hp
         simp only [emitNode] at hcode hext
-        have := poslook_delivers (sz := size W.cfg c) (rs := m W.X.se pc false ⟨i, C⟩) W.hrel hwf.1 hcode
-          (emitNode_size _ _ _ _) he (fun r hr => m_caps_ext W.X.se pc false ⟨i, C⟩ r hr)
-          (fun s1 he1 => node_delivers c (a + 2) tb pc (by simp only [Nat.max_le] at ht; exact ht.2) hpc
+        have := poslook_delivers (sz := size W.cfg c) (rs := m W.X.se pc b ⟨i, C⟩) W.hrel hwf.1 hcode
+          (emitNode_size _ _ _ _) he (fun r hr => m_caps_ext W.X.se pc b ⟨i, C⟩ r hr)
+          (fun s1 he1 => node_delivers c b (a + 2) tb pc htc hpc
             (by simpa [GoNode.ok] using hok) (by simpa [capsOk] using hcaps) (by simpa [boundsOk] using hbd)
             ((hcode.left').right.cast (by simp) rfl) hext i (((a + 1 : Nat) : Int) :: (a : Int) :: T) _ v C s1 hwf he1)
         refine this.cast (by simp only [size]; omega) ?_
         simp only [m]
-        cases m W.X.se pc false ⟨i, C⟩ <;> simp [posLookRes]
-    · have ht := Nat.le_trans ht hWk; simp only [maxTier, Nat.max_le] at ht; omega
-  | .neglook c, a, tb, pat, ht, hp, hok, hcaps, hbd, hcode, hext, i, T, S, v, C, s, hwf, he => by
-    simp only [tier] at ht
-    split at ht
-    · next hdir =>
-      have hdir' : lookDir c = some false := by simpa using hdir
-      simp only [toPat, hdir'] at hp
-      cases hpc : toPat W.TPx false c with
+        cases m W.X.se pc b ⟨i, C⟩ <;> simp [posLookRes]
+  | .neglook c, d, a, tb, pat, ht, hp, hok, hcaps, hbd, hcode, hext, i, T, S, v, C, s, hwf, he => by
+    have htc : tier c ≤ W.k := by
+      simp only [tier] at ht
+      split at ht <;> (simp only [Nat.max_le] at ht; exact ht.2)
+    simp only [toPat] at hp
+    cases hdir : lookDir c with
+    | none => rw [hdir] at hp; cases hp
+    | some b =>
+      rw [hdir] at hp
+      simp only at hp
+      cases hpc : toPat W.TPx b c with
       | none => rw [hpc] at hp; cases hp
       | some pc =>
         rw [hpc] at hp
         simp only [Option.map_some, Option.some.injEq] at hp
         subst hp
         simp only [emitNode] at hcode hext
-        have := neglook_delivers (sz := size W.cfg c) (rs := m W.X.se pc false ⟨i, C⟩) hcode
-          (emitNode_size _ _ _ _) he (fun r hr => m_caps_ext W.X.se pc false ⟨i, C⟩ r hr)
-          (fun s1 he1 => node_delivers c (a + 3) tb pc (by simp only [Nat.max_le] at ht; exact ht.2) hpc
+        have := neglook_delivers (sz := size W.cfg c) (rs := m W.X.se pc b ⟨i, C⟩) hcode
+          (emitNode_size _ _ _ _) he (fun r hr => m_caps_ext W.X.se pc b ⟨i, C⟩ r hr)
+          (fun s1 he1 => node_delivers c b (a + 3) tb pc htc hpc
             (by simpa [GoNode.ok] using hok) (by simpa [capsOk] using hcaps) (by simpa [boundsOk] using hbd)
             ((hcode.left').right.cast (by simp) rfl) hext i (((a + 1 : Nat) : Int) :: (i : Int) :: (a : Int) :: T) _ v C s1 hwf he1)
         refine this.cast (by simp only [size]; omega) ?_
         simp only [m]
-        cases m W.X.se pc false ⟨i, C⟩ <;> simp [negLookRes]
-    · have ht := Nat.le_trans ht hWk; simp only [maxTier, Nat.max_le] at ht; omega
-  | .atomic c, a, tb, pat, ht, hp, hok, hcaps, hbd, hcode, hext, i, T, S, v, C, s, hwf, he => by
+        cases m W.X.se pc b ⟨i, C⟩ <;> simp [negLookRes]
+  | .atomic c, d, a, tb, pat, ht, hp, hok, hcaps, hbd, hcode, hext, i, T, S, v, C, s, hwf, he => by
     simp only [toPat] at hp
-    cases hpc : toPat W.TPx false c with
+    cases hpc : toPat W.TPx d c with
     | none => rw [hpc] at hp; cases hp
     | some pc =>
       rw [hpc] at hp
@@ -424,19 +441,19 @@ theorem node_delivers : ∀ (n : GoNode) (a : Nat) (tb : Tables) (pat : Pat),
       subst hp
       simp only [emitNode] at hcode hext
       simp only [tier, Nat.max_le] at ht
-      have := atomic_delivers (sz := size W.cfg c) (rs := m W.X.se pc false ⟨i, C⟩) hcode
-        (emitNode_size _ _ _ _) he (fun r hr => m_caps_ext W.X.se pc false ⟨i, C⟩ r hr)
-        (fun s1 he1 => node_delivers c (a + 1) tb pc ht.2 hpc
+      have := atomic_delivers (sz := size W.cfg c) (rs := m W.X.se pc d ⟨i, C⟩) hcode
+        (emitNode_size _ _ _ _) he (fun r hr => m_caps_ext W.X.se pc d ⟨i, C⟩ r hr)
+        (fun s1 he1 => node_delivers c d (a + 1) tb pc ht.2 hpc
           (by simpa [GoNode.ok] using hok) (by simpa [capsOk] using hcaps) (by simpa [boundsOk] using hbd)
           ((hcode.left').right.cast (by simp) rfl) hext i ((a : Int) :: T) _ v C s1 hwf he1)
       refine this.cast (by simp only [size]; omega) ?_
       simp only [m]
-  | .backrefcond1 g y, a, tb, pat, ht, hp, hok, hcaps, hbd, hcode, hext, i, T, S, v, C, s, hwf, he => by
+  | .backrefcond1 g y, d, a, tb, pat, ht, hp, hok, hcaps, hbd, hcode, hext, i, T, S, v, C, s, hwf, he => by
     simp only [toPat] at hp
     simp only [tier, Nat.max_le] at ht
     split at hp
     · next hg0 =>
-      cases hpy : toPat W.TPx false y with
+      cases hpy : toPat W.TPx d y with
       | none => rw [hpy] at hp; cases hp
       | some py =>
         rw [hpy] at hp
@@ -456,23 +473,23 @@ theorem node_delivers : ∀ (n : GoNode) (a : Nat) (tb : Tables) (pat : Pat),
         have hcy : CodeAt W.X.p (a + 6) (emitNode W.cfg (a + 6) tb y).1 :=
           ((hcode.left').right).cast (by simp [codeLen]) rfl
         have := backrefcond_delivers (szy := size W.cfg y) (szn := 0) (ycode := (emitNode W.cfg (a + 6) tb y).1) (ncode := [])
-          (rsY := m W.X.se py false ⟨i, C⟩)
+          (rsY := m W.X.se py d ⟨i, C⟩)
           (rsN := [⟨i, C⟩]) (W.hid ht.1) (g := g.toNat) (by omega) (hcode.cast rfl (by simp)) (emitNode_size _ _ _ _) rfl he
-          (fun _ s1 he1 => node_delivers y (a + 6) tb py ht.2 hpy (by simpa [GoNode.ok] using hok) hcaps.2
+          (fun _ s1 he1 => node_delivers y d (a + 6) tb py ht.2 hpy (by simpa [GoNode.ok] using hok) hcaps.2
             (by simpa [boundsOk] using hbd) hcy hext i _ S v C s1 hwf he1)
           (fun _ s1 he1 => Delivers.single (v := v) (Leads.here (by simpa using he1)) rfl)
         refine this.cast (by simp only [size]; omega) ?_
         simp only [m]
     · cases hp
-  | .backrefcond2 g y n, a, tb, pat, ht, hp, hok, hcaps, hbd, hcode, hext, i, T, S, v, C, s, hwf, he => by
+  | .backrefcond2 g y n, d, a, tb, pat, ht, hp, hok, hcaps, hbd, hcode, hext, i, T, S, v, C, s, hwf, he => by
     simp only [toPat] at hp
     simp only [tier, Nat.max_le] at ht
     split at hp
     · next hg0 =>
-      cases hpy : toPat W.TPx false y with
+      cases hpy : toPat W.TPx d y with
       | none => rw [hpy] at hp; simp at hp
       | some py =>
-        cases hpn : toPat W.TPx false n with
+        cases hpn : toPat W.TPx d n with
         | none => rw [hpy, hpn] at hp; simp at hp
         | some pn =>
           rw [hpy, hpn] at hp
@@ -499,22 +516,22 @@ theorem node_delivers : ∀ (n : GoNode) (a : Nat) (tb : Tables) (pat : Pat),
             simp only [codeLen_append, emitNode_size] at this
             exact this.cast (by simp [codeLen] <;> omega) rfl
           have hexty : TabExt (emitNode W.cfg (a + 6) tb y).2 W.fin := (emitNode_ext W.cfg n _ _).trans hext
-          have := backrefcond_delivers (szy := size W.cfg y) (szn := size W.cfg n) (rsY := m W.X.se py false ⟨i, C⟩)
-            (rsN := m W.X.se pn false ⟨i, C⟩) (W.hid ht.1) (g := g.toNat) (by omega) hcode (emitNode_size _ _ _ _)
+          have := backrefcond_delivers (szy := size W.cfg y) (szn := size W.cfg n) (rsY := m W.X.se py d ⟨i, C⟩)
+            (rsN := m W.X.se pn d ⟨i, C⟩) (W.hid ht.1) (g := g.toNat) (by omega) hcode (emitNode_size _ _ _ _)
             (emitNode_size _ _ _ _) he
-            (fun _ s1 he1 => node_delivers y (a + 6) tb py ht.2.1 hpy hok.1 hcaps.1.2 hbd.1 hcy hexty i _ S v C s1 hwf he1)
-            (fun _ s1 he1 => node_delivers n (a + 6 + size W.cfg y + 3) _ pn ht.2.2 hpn hok.2 hcaps.2 hbd.2 hcn hext i _ S v C s1
+            (fun _ s1 he1 => node_delivers y d (a + 6) tb py ht.2.1 hpy hok.1 hcaps.1.2 hbd.1 hcy hexty i _ S v C s1 hwf he1)
+            (fun _ s1 he1 => node_delivers n d (a + 6 + size W.cfg y + 3) _ pn ht.2.2 hpn hok.2 hcaps.2 hbd.2 hcn hext i _ S v C s1
               hwf he1)
           refine this.cast (by simp only [size]; omega) ?_
           simp only [m]
     · cases hp
-  | .exprcond2 c y, a, tb, pat, ht, hp, hok, hcaps, hbd, hcode, hext, i, T, S, v, C, s, hwf, he => by
+  | .exprcond2 c y, d, a, tb, pat, ht, hp, hok, hcaps, hbd, hcode, hext, i, T, S, v, C, s, hwf, he => by
     simp only [toPat] at hp
     simp only [tier, Nat.max_le] at ht
-    cases hpc : toPat W.TPx false c with
+    cases hpc : toPat W.TPx d c with
     | none => rw [hpc] at hp; simp at hp
     | some pc =>
-      cases hpy : toPat W.TPx false y with
+      cases hpy : toPat W.TPx d y with
       | none => rw [hpc, hpy] at hp; simp at hp
       | some py =>
         rw [hpc, hpy] at hp
@@ -534,26 +551,26 @@ theorem node_delivers : ∀ (n : GoNode) (a : Nat) (tb : Tables) (pat : Pat),
         have hextc : TabExt (emitNode W.cfg (a + 4) tb c).2 W.fin := (emitNode_ext W.cfg y _ _).trans hext
         have := exprcond_delivers (szc := size W.cfg c) (szy := size W.cfg y) (szn := 0) (ccode := (emitNode W.cfg (a + 4) tb c).1)
           (ycode := (emitNode W.cfg (a + 4 + size W.cfg c + 2) (emitNode W.cfg (a + 4) tb c).2 y).1) (ncode := [])
-          (rsC := m W.X.se pc false ⟨i, C⟩) (rsY := fun r => m W.X.se py false ⟨i, r.caps⟩) (rsN := [⟨i, C⟩]) W.hrel hwf.1
+          (rsC := m W.X.se pc d ⟨i, C⟩) (rsY := fun r => m W.X.se py d ⟨i, r.caps⟩) (rsN := [⟨i, C⟩]) W.hrel hwf.1
           (hcode.cast rfl (by simp)) (emitNode_size _ _ _ _) (emitNode_size _ _ _ _) rfl he
-          (fun r hr => m_caps_ext W.X.se pc false ⟨i, C⟩ r hr)
-          (fun s1 he1 => node_delivers c (a + 4) tb pc ht.2.1 hpc hok.1 hcaps.1 hbd.1 hcc hextc i _ _ v C s1 hwf he1)
-          (fun r hr s1 v1 he1 => node_delivers y (a + 4 + size W.cfg c + 2) _ py ht.2.2 hpy hok.2 hcaps.2 hbd.2 hcy hext i _ S v1
-            r.caps s1 ⟨hwf.1, (m_wf W.X.se pc false ⟨i, C⟩ hwf r (List.mem_of_mem_head? hr)).2⟩ he1)
+          (fun r hr => m_caps_ext W.X.se pc d ⟨i, C⟩ r hr)
+          (fun s1 he1 => node_delivers c d (a + 4) tb pc ht.2.1 hpc hok.1 hcaps.1 hbd.1 hcc hextc i _ _ v C s1 hwf he1)
+          (fun r hr s1 v1 he1 => node_delivers y d (a + 4 + size W.cfg c + 2) _ py ht.2.2 hpy hok.2 hcaps.2 hbd.2 hcy hext i _ S v1
+            r.caps s1 ⟨hwf.1, (m_wf W.X.se pc d ⟨i, C⟩ hwf r (List.mem_of_mem_head? hr)).2⟩ he1)
           (fun _ s1 v1 he1 => Delivers.single (v := v1) (Leads.here (by simpa using he1)) rfl)
         refine this.cast (by simp only [size]; omega) ?_
         simp only [m]
-        cases m W.X.se pc false ⟨i, C⟩ <;> rfl
-  | .exprcond3 c y n, a, tb, pat, ht, hp, hok, hcaps, hbd, hcode, hext, i, T, S, v, C, s, hwf, he => by
+        cases m W.X.se pc d ⟨i, C⟩ <;> rfl
+  | .exprcond3 c y n, d, a, tb, pat, ht, hp, hok, hcaps, hbd, hcode, hext, i, T, S, v, C, s, hwf, he => by
     simp only [toPat] at hp
     simp only [tier, Nat.max_le] at ht
-    cases hpc : toPat W.TPx false c with
+    cases hpc : toPat W.TPx d c with
     | none => rw [hpc] at hp; simp at hp
     | some pc =>
-      cases hpy : toPat W.TPx false y with
+      cases hpy : toPat W.TPx d y with
       | none => rw [hpc, hpy] at hp; simp at hp
       | some py =>
-        cases hpn : toPat W.TPx false n with
+        cases hpn : toPat W.TPx d n with
         | none => rw [hpc, hpy, hpn] at hp; simp at hp
         | some pn =>
           rw [hpc, hpy, hpn] at hp
@@ -580,37 +597,37 @@ theorem node_delivers : ∀ (n : GoNode) (a : Nat) (tb : Tables) (pat : Pat),
             (emitNode_ext W.cfg n _ _).trans hext
           have hextc : TabExt (emitNode W.cfg (a + 4) tb c).2 W.fin := (emitNode_ext W.cfg y _ _).trans hexty
           have := exprcond_delivers (szc := size W.cfg c) (szy := size W.cfg y) (szn := size W.cfg n)
-            (rsC := m W.X.se pc false ⟨i, C⟩) (rsY := fun r => m W.X.se py false ⟨i, r.caps⟩)
-            (rsN := m W.X.se pn false ⟨i, C⟩) W.hrel hwf.1 hcode (emitNode_size _ _ _ _) (emitNode_size _ _ _ _)
-            (emitNode_size _ _ _ _) he (fun r hr => m_caps_ext W.X.se pc false ⟨i, C⟩ r hr)
-            (fun s1 he1 => node_delivers c (a + 4) tb pc ht.2.1 hpc hok.1.1 hcaps.1.1 hbd.1.1 hcc hextc i _ _ v C s1 hwf he1)
-            (fun r hr s1 v1 he1 => node_delivers y (a + 4 + size W.cfg c + 2) _ py ht.2.2.1 hpy hok.1.2 hcaps.1.2 hbd.1.2 hcy
-              hexty i _ S v1 r.caps s1 ⟨hwf.1, (m_wf W.X.se pc false ⟨i, C⟩ hwf r (List.mem_of_mem_head? hr)).2⟩ he1)
-            (fun _ s1 v1 he1 => node_delivers n (a + 4 + size W.cfg c + 2 + size W.cfg y + 4) _ pn ht.2.2.2 hpn hok.2 hcaps.2 hbd.2
+            (rsC := m W.X.se pc d ⟨i, C⟩) (rsY := fun r => m W.X.se py d ⟨i, r.caps⟩)
+            (rsN := m W.X.se pn d ⟨i, C⟩) W.hrel hwf.1 hcode (emitNode_size _ _ _ _) (emitNode_size _ _ _ _)
+            (emitNode_size _ _ _ _) he (fun r hr => m_caps_ext W.X.se pc d ⟨i, C⟩ r hr)
+            (fun s1 he1 => node_delivers c d (a + 4) tb pc ht.2.1 hpc hok.1.1 hcaps.1.1 hbd.1.1 hcc hextc i _ _ v C s1 hwf he1)
+            (fun r hr s1 v1 he1 => node_delivers y d (a + 4 + size W.cfg c + 2) _ py ht.2.2.1 hpy hok.1.2 hcaps.1.2 hbd.1.2 hcy
+              hexty i _ S v1 r.caps s1 ⟨hwf.1, (m_wf W.X.se pc d ⟨i, C⟩ hwf r (List.mem_of_mem_head? hr)).2⟩ he1)
+            (fun _ s1 v1 he1 => node_delivers n d (a + 4 + size W.cfg c + 2 + size W.cfg y + 4) _ pn ht.2.2.2 hpn hok.2 hcaps.2 hbd.2
               hcn hext i _ S v1 C s1 hwf he1)
           refine this.cast (by simp only [size]; omega) ?_
           simp only [m]
-          cases m W.X.se pc false ⟨i, C⟩ <;> rfl
-  | .other t, a, tb, pat, ht, _, _, _, _, _, _, i, T, S, v, C, s, _, _ => by
+          cases m W.X.se pc d ⟨i, C⟩ <;> rfl
+  | .other t, d, a, tb, pat, ht, _, _, _, _, _, _, i, T, S, v, C, s, _, _ => by
     have ht := Nat.le_trans ht hWk; simp [tier, maxTier] at ht
 /-- `Concatenate`: the children one after the other -/
-theorem list_delivers : ∀ (cs : List GoNode) (a : Nat) (tb : Tables) (ps : List Pat),
-    tierList cs ≤ W.k → toPatList W.TPx false cs = some ps → okList cs = true →
+theorem list_delivers : ∀ (cs : List GoNode) (d : Bool) (a : Nat) (tb : Tables) (ps : List Pat),
+    tierList cs ≤ W.k → toPatList W.TPx d cs = some ps → okList cs = true →
     capsOkList W.cfg W.X.p.capsize cs = true → boundsOkList cs = true →
     CodeAt W.X.p a (emitList W.cfg a tb cs).1 → TabExt (emitList W.cfg a tb cs).2 W.fin →
     ∀ (i : Nat) (T S : List Int) (v : Int) (C : List (Nat × Nat × Nat)) (s : VMState), St.wf W.X.se.n ⟨i, C⟩ →
-      Entry W.X a i (T ++ [v]) S C s → Delivers W.X (a + sizeList W.cfg cs) T S S C (m W.X.se (nestSeq ps) false ⟨i, C⟩) s
-  | [], a, tb, ps, _, hp, _, _, _, _, _, i, T, S, v, C, s, _, he => by
+      Entry W.X a i (T ++ [v]) S C s → Delivers W.X (a + sizeList W.cfg cs) T S S C (seqList W.X.se d ps ⟨i, C⟩) s
+  | [], d, a, tb, ps, _, hp, _, _, _, _, _, i, T, S, v, C, s, _, he => by
     simp only [toPatList, Option.some.injEq] at hp
     subst hp
-    simp only [sizeList, Nat.add_zero, nestSeq, nest, m]
+    simp only [sizeList, Nat.add_zero, seqList]
     exact Delivers.single (v := v) (Leads.here he) rfl
-  | c :: cs, a, tb, ps, ht, hp, hok, hcaps, hbd, hcode, hext, i, T, S, v, C, s, hwf, he => by
+  | c :: cs, d, a, tb, ps, ht, hp, hok, hcaps, hbd, hcode, hext, i, T, S, v, C, s, hwf, he => by
     simp only [toPatList] at hp
-    cases hpc : toPat W.TPx false c with
+    cases hpc : toPat W.TPx d c with
     | none => rw [hpc] at hp; cases hp
     | some pc =>
-      cases hps : toPatList W.TPx false cs with
+      cases hps : toPatList W.TPx d cs with
       | none => rw [hpc, hps] at hp; cases hp
       | some ps' =>
         rw [hpc, hps] at hp
@@ -622,30 +639,30 @@ theorem list_delivers : ∀ (cs : List GoNode) (a : Nat) (tb : Tables) (ps : Lis
         simp only [tierList, Nat.max_le] at ht
         simp only [emitList] at hcode hext
         have hext1 : TabExt (emitNode W.cfg a tb c).2 W.fin := (emitList_ext W.cfg cs _ _).trans hext
-        have h1 := node_delivers c a tb pc ht.1 hpc hok.1 hcaps.1 hbd.1 hcode.left' hext1 i T S v C s hwf he
-        rw [m_nestSeq_cons]
+        have h1 := node_delivers c d a tb pc ht.1 hpc hok.1 hcaps.1 hbd.1 hcode.left' hext1 i T S v C s hwf he
+        rw [seqList]
         have hcode2 : CodeAt W.X.p (a + size W.cfg c) (emitList W.cfg (a + size W.cfg c) (emitNode W.cfg a tb c).2 cs).1 :=
           hcode.right.cast (by rw [emitNode_size]) rfl
         refine (Delivers.bind (X := W.X) (b := a + size W.cfg c + sizeList W.cfg cs) _ s h1 ?_).cast
           (by simp only [sizeList]; omega) rfl
         intro r hr F s' v' hF he'
-        have hwf' := m_wf W.X.se pc false ⟨i, C⟩ hwf r hr
-        exact list_delivers cs (a + size W.cfg c) _ ps' ht.2 hps hok.2 hcaps.2 hbd.2 hcode2 hext r.pos (F ++ T) S v' r.caps s'
+        have hwf' := m_wf W.X.se pc d ⟨i, C⟩ hwf r hr
+        exact list_delivers cs d (a + size W.cfg c) _ ps' ht.2 hps hok.2 hcaps.2 hbd.2 hcode2 hext r.pos (F ++ T) S v' r.caps s'
           hwf' he'
 /-- `Alternate`: `Lazybranch next; ⟨branch⟩; Goto end` for every branch but the last -/
-theorem alt_delivers : ∀ (cs : List GoNode) (a fin : Nat) (tb : Tables) (ps : List Pat), cs ≠ [] →
-    fin = a + sizeAlt W.cfg cs → tierList cs ≤ W.k → toPatList W.TPx false cs = some ps → okList cs = true →
+theorem alt_delivers : ∀ (cs : List GoNode) (d : Bool) (a fin : Nat) (tb : Tables) (ps : List Pat), cs ≠ [] →
+    fin = a + sizeAlt W.cfg cs → tierList cs ≤ W.k → toPatList W.TPx d cs = some ps → okList cs = true →
     capsOkList W.cfg W.X.p.capsize cs = true → boundsOkList cs = true →
     CodeAt W.X.p a (emitAlt W.cfg a fin tb cs).1 → TabExt (emitAlt W.cfg a fin tb cs).2 W.fin →
     ∀ (i : Nat) (T S : List Int) (v : Int) (C : List (Nat × Nat × Nat)) (s : VMState), St.wf W.X.se.n ⟨i, C⟩ →
-      Entry W.X a i (T ++ [v]) S C s → Delivers W.X fin T S S C (m W.X.se (nestAlt ps) false ⟨i, C⟩) s
-  | [], a, fin, tb, ps, hne, _, _, _, _, _, _, _, _, i, T, S, C, s, _, _, _ => absurd rfl hne
-  | c :: cs, a, fin, tb, ps, _, hfin, ht, hp, hok, hcaps, hbd, hcode, hext, i, T, S, v, C, s, hwf, he => by
+      Entry W.X a i (T ++ [v]) S C s → Delivers W.X fin T S S C (m W.X.se (nestAlt ps) d ⟨i, C⟩) s
+  | [], d, a, fin, tb, ps, hne, _, _, _, _, _, _, _, _, i, T, S, C, s, _, _, _ => absurd rfl hne
+  | c :: cs, d, a, fin, tb, ps, _, hfin, ht, hp, hok, hcaps, hbd, hcode, hext, i, T, S, v, C, s, hwf, he => by
     simp only [toPatList] at hp
-    cases hpc : toPat W.TPx false c with
+    cases hpc : toPat W.TPx d c with
     | none => rw [hpc] at hp; cases hp
     | some pc =>
-      cases hps : toPatList W.TPx false cs with
+      cases hps : toPatList W.TPx d cs with
       | none => rw [hpc, hps] at hp; cases hp
       | some ps' =>
         rw [hpc, hps] at hp
@@ -663,8 +680,8 @@ theorem alt_delivers : ∀ (cs : List GoNode) (a fin : Nat) (tb : Tables) (ps : 
           simp only [sizeAlt, List.isEmpty_nil, if_true] at hfin
           subst hfin
           simp only [nestAlt, nest]
-          exact node_delivers c a tb pc ht.1 hpc hok.1 hcaps.1 hbd.1 hcode hext i T S v C s hwf he
-        | cons d ds =>
+          exact node_delivers c d a tb pc ht.1 hpc hok.1 hcaps.1 hbd.1 hcode hext i T S v C s hwf he
+        | cons d0 ds =>
           rw [emitAlt_cons_cons] at hcode hext
           rw [sizeAlt_cons_cons] at hfin
           simp only at hcode hext
@@ -682,7 +699,7 @@ theorem alt_delivers : ∀ (cs : List GoNode) (a fin : Nat) (tb : Tables) (ps : 
             exact this.cast (by simp; omega) rfl
           have hgo := hc3.instr
           have hc4 : CodeAt W.X.p (a + 2 + size W.cfg c + 2)
-              (emitAlt W.cfg (a + 2 + size W.cfg c + 2) fin (emitNode W.cfg (a + 2) tb c).2 (d :: ds)).1 := by
+              (emitAlt W.cfg (a + 2 + size W.cfg c + 2) fin (emitNode W.cfg (a + 2) tb c).2 (d0 :: ds)).1 := by
             have := hcode.right
             simp only [codeLen_append, emitNode_size] at this
             exact this.cast (by simp; omega) rfl
@@ -697,8 +714,8 @@ theorem alt_delivers : ∀ (cs : List GoNode) (a fin : Nat) (tb : Tables) (ps : 
           obtain ⟨s1, hr1, he1⟩ := lazybranch_leads he hlb hf2
           refine Delivers.of_reach hr1 ?_
           have hfr : Framed W.X.p [(a : Int), (i : Int)] := lazybranch_frame hlb _
-          refine Delivers.append (Sm := S) (C1 := C) (F := [(a : Int), (i : Int)]) hfr (m W.X.se pc false ⟨i, C⟩) s1 ?_ ?_
-          · have hn := node_delivers c (a + 2) tb pc ht.1 hpc hok.1 hcaps.1 hbd.1 hc2 hext1 i
+          refine Delivers.append (Sm := S) (C1 := C) (F := [(a : Int), (i : Int)]) hfr (m W.X.se pc d ⟨i, C⟩) s1 ?_ ?_
+          · have hn := node_delivers c d (a + 2) tb pc ht.1 hpc hok.1 hcaps.1 hbd.1 hc2 hext1 i
               ([(a : Int), (i : Int)] ++ T) S v C s1 hwf (by simpa using he1)
             have := Delivers.bind (X := W.X) (b := fin) (S' := S) (g := fun r => [r]) _ s1 hn ?_
             · rwa [flatMap_singleton_id] at this
@@ -707,7 +724,7 @@ theorem alt_delivers : ∀ (cs : List GoNode) (a fin : Nat) (tb : Tables) (ps : 
           · intro s'' v' hf
             obtain ⟨s2, hr2, he2⟩ := lazybranch_back (T := T ++ [v']) (by simpa using hf) hlb hfnext
             refine Delivers.of_reach hr2 ?_
-            exact alt_delivers (d :: ds) (a + 2 + size W.cfg c + 2) fin _ ps' (by simp) (by rw [hfin]; omega) ht.2 hps
+            exact alt_delivers (d0 :: ds) d (a + 2 + size W.cfg c + 2) fin _ ps' (by simp) (by rw [hfin]; omega) ht.2 hps
               hok.2 hcaps.2 hbd.2 hc4 hext i T S v' C s2 hwf he2
 end
 
